@@ -294,6 +294,19 @@ def main(argv=None):
         outs = all_outs[ekey]
         for (req, o, c), out in zip(rr, outs[:len(rr)]):
             confirmed = bool(out.get("violation")) or bool(out.get("crashed"))
+            env_used = env
+            if not confirmed and o["kind"] == "fault" and o["name"].split(":")[0] in ("UnboundLocalError", "NameError", "OOBFault", "IndexError", "PoisonFault"):
+                # a compiled kernel reads garbage silently where Python semantics raise: confirm the memory fault in the
+                # checked modes the package supports (bounds checking; interpreter fallback for never-assigned locals)
+                for extra in ({"NUMBA_BOUNDSCHECK": "1"}, {"NUMBA_DISABLE_JIT": "1"}):
+                    if all(env.get(k) == v for k, v in extra.items()):
+                        continue
+                    out2 = _driver([req], dict(env, **extra))[0]
+                    if out2.get("violation") or out2.get("crashed"):
+                        out = dict(out2, confirmed_under=extra)
+                        env_used = dict(env, **extra)
+                        confirmed = True
+                        break
             rec = {"property": pid, "case": c.name, "assertion": o["name"], "kind": o["kind"], "inputs": o["inputs"],
                    "real_build": out, "known": o.get("known")}
             if not confirmed:
@@ -308,7 +321,7 @@ def main(argv=None):
                 os.makedirs(d, exist_ok=True)
                 path = os.path.join(d, "%s-%s.json" % (c.name.replace("/", "_"), h))
                 with open(path, "w") as f:
-                    json.dump({"request": req, "env": env, "record": rec}, f, indent=1)
+                    json.dump({"request": req, "env": env_used, "record": rec}, f, indent=1)
                 violations.append((path, rec))
         for (req, w, c), out in zip(ww, outs[len(rr):]):
             if out.get("match"):
